@@ -832,17 +832,21 @@ class HexaryTrie:
     @contextlib.contextmanager
     def squash_changes(self):
         scratch_db = ScratchDB(self.db)
+        # The batch works on its own copy of the reference counts: like the scratch
+        # database, the counts must only take effect if the batch is committed.
+        batch_ref_count = self._ref_count.copy() if self.is_pruning else None
         with scratch_db.batch_commit(do_deletes=self.is_pruning):
             Trie = type(self)
             memory_trie = Trie(
-                scratch_db, self.root_hash, prune=True, ref_count=self._ref_count
+                scratch_db, self.root_hash, prune=True, ref_count=batch_ref_count
             )
             yield memory_trie
 
         if self.is_pruning:
-            # The batch trie shares this trie's reference counts and has already
-            # persisted and counted its root node; persisting it again through
-            # _set_raw_node would count the new root a second time.
+            # The batch trie started from this trie's reference counts and has
+            # already persisted and counted its root node; persisting it again
+            # through _set_raw_node would count the new root a second time.
+            self._ref_count = memory_trie._ref_count
             self.root_hash = memory_trie.root_hash
         elif self.root_hash != memory_trie.root_hash:
             try:
